@@ -93,13 +93,11 @@ Ltac zb :=
   | H : (_ <=? _) = false |- _ => apply Z.leb_gt in H
   end.
 
-Lemma slice_some s i j r : str_slice s i j = Some r -> r = sp_slice s i j.
+Lemma slice_refines s i j : str_slice s i j = sp_slice s i j.
 Proof.
   unfold str_slice, sp_slice, slice_start, slice_end, sp_first, sp_last.
   set (len := Z.of_nat (length s)). assert (L : len = Z.of_nat (length s)) by reflexivity. clearbody len.
   assert (0 <= len) by lia.
-  match goal with |- (if ?c then _ else _) = _ -> _ => destruct c eqn:SE end; [|discriminate].
-  intros [= <-].
   match goal with |- _ = (if ?c then _ else _) => destruct c eqn:BA end.
   - (* reference: empty *)
     apply firstn_nil_min. rewrite skipn_length.
@@ -112,27 +110,15 @@ Proof.
     destruct (i <? 0) eqn:I1; destruct (0 <? i) eqn:I2; destruct (j <? 0) eqn:J1; destruct (0 <=? j) eqn:J2; zb; lia.
 Qed.
 
-(* the error class is exactly "computed start after computed end", and there the reference result is empty *)
-Lemma slice_none s i j :
-  str_slice s i j = None <->
-  slice_end j (Z.of_nat (length s)) < slice_start i (Z.of_nat (length s)).
+(* the range is empty exactly when the computed start is not before the computed end *)
+Lemma slice_empty_range s i j :
+  slice_end j (Z.of_nat (length s)) <= slice_start i (Z.of_nat (length s)) -> str_slice s i j = [].
 Proof.
-  unfold str_slice. destruct (slice_start i (Z.of_nat (length s)) <=? slice_end j (Z.of_nat (length s))) eqn:E; zb.
-  - split; [discriminate|lia].
-  - split; [intros _; lia|reflexivity].
+  intros H. unfold str_slice.
+  replace (Z.min (Z.max 0 (slice_end j (Z.of_nat (length s)) - slice_start i (Z.of_nat (length s)))) (Z.of_nat (length s)))
+    with 0 by lia.
+  reflexivity.
 Qed.
-
-Lemma slice_none_empty s i j : str_slice s i j = None -> sp_slice s i j = [].
-Proof.
-  intros H. apply slice_none in H. revert H.
-  unfold sp_slice, slice_start, slice_end, sp_first, sp_last.
-  set (len := Z.of_nat (length s)). assert (0 <= len) by (unfold len; lia). clearbody len. intros H0.
-  match goal with |- (if ?c then _ else _) = _ => destruct c eqn:BA end; [reflexivity|]. exfalso.
-  destruct (i <? 0) eqn:I1; destruct (0 <? i) eqn:I2; destruct (j <? 0) eqn:J1; destruct (0 <=? j) eqn:J2; zb; lia.
-Qed.
-
-Lemma refuted_slice : str_slice [97; 98; 99]%N 3 1 = None /\ sp_slice [97; 98; 99]%N 3 1 = [].
-Proof. split; vm_compute; reflexivity. Qed.
 
 (* ---- case ---- *)
 Lemma upper1_refines c : to_ascii_upper c = sp_upper1 c.
